@@ -1,6 +1,7 @@
 import Driver.Util
 import NutsModel.C08.State
 import NutsModel.C08.Codec
+import NutsModel.C08.Drop
 import NutsModel.Facts.C08
 open Lean Nuts.Drv Nuts.C08 Nuts
 
@@ -143,7 +144,15 @@ def codecStep (st : St) (j : Json) : Option String :=
           | .ok l => s!"tca ok:[{bucketsStr l}]" | .err e => "tca err:" ++ e | .panic s => "tca panic:" ++ s)
         | .err e => "tca err2:" ++ e | .panic s => "tca panic:" ++ s)
       | .err e => "tca err1:" ++ e | .panic s => "tca panic:" ++ s)
+  | "tnb" =>
+    let n := Codec.newIbltBuckets Nuts.Facts.C08.ibltK (jNat j "nb")
+    some s!"tnb {n} {Codec.newIbltBuckets Nuts.Facts.C08.ibltK n}"
   -- dag level
+  | "mget" =>
+    let g : Codec.GetRes := match jStr j "mode" with
+      | "notfound" => .notFound | "wrapped-notfound" => .notFound | "failed" => .failed | _ => .value (hexBytes (jStr j "val"))
+    let head := match Codec.getHead g with | .ok r => full r | .err _ => "err" | .panic _ => "short"
+    some s!"mget lc={resNat (Codec.getHighestClockValue g)} cnt={resNat (Codec.getNumberOfTransactions g)} head={head}"
   | "ckey" =>
     let c := jNat j "clock"
     some s!"ckey le={bytesHex (Codec.clockToKey c)} be={bytesHex (Codec.uint32Key c)} rt={resNat (Codec.keyToClock (Codec.clockToKey c))},{resNat (Codec.bytesToClock (Codec.uint32Key c))}"
@@ -223,7 +232,10 @@ def step (st : St) (j : Json) : St × List String :=
       | "tins" => fin { st with ti := st.ti.insert o (parseIKey j) (jNat j "clock") } "tins"
       | "tdel" => fin { st with ti := st.ti.delete o (parseIKey j) (jNat j "clock") } "tdel"
       | "tobs" => fin st "tobs"
-      | "tpersist" => fin { st with shelfI := putAll st.ti st.shelfI, ti := st.ti.resetUpdates } "tpersist"
+      | "tpersist" => fin { st with shelfI := (persistFull st.ti st.shelfI).2, ti := st.ti.resetUpdates } "tpersist"
+      | "tdrop" => (match st.ti.dropLeaves with
+        | .ok t => fin { st with ti := t } s!"tdrop orph={sortNats t.orphaned}"
+        | .err e => (st, ["tdrop err:" ++ e]) | .panic p => (st, ["panic:" ++ p]))
       | "tload" => fin { st with ti := Tree.load o cfg.loadEmptyResets (Tree.new o (jNat j "ls")) st.shelfI } "tload"
       | "tlb" =>
         let r := Codec.loadIbltBytes st.tn cfg.loadEmptyResets st.ti (parseKv j)
@@ -239,7 +251,10 @@ def step (st : St) (j : Json) : St × List String :=
       | "tins" => fin { st with tx := st.tx.insert o (parseRef j "ref") (jNat j "clock") } "tins"
       | "tdel" => fin { st with tx := st.tx.delete o (parseRef j "ref") (jNat j "clock") } "tdel"
       | "tobs" => fin st "tobs"
-      | "tpersist" => fin { st with shelfX := putAll st.tx st.shelfX, tx := st.tx.resetUpdates } "tpersist"
+      | "tpersist" => fin { st with shelfX := (persistFull st.tx st.shelfX).2, tx := st.tx.resetUpdates } "tpersist"
+      | "tdrop" => (match st.tx.dropLeaves with
+        | .ok t => fin { st with tx := t } s!"tdrop orph={sortNats t.orphaned}"
+        | .err e => (st, ["tdrop err:" ++ e]) | .panic p => (st, ["panic:" ++ p]))
       | "tload" => fin { st with tx := Tree.load o cfg.loadEmptyResets (Tree.new o (jNat j "ls")) st.shelfX } "tload"
       | "tlb" =>
         let r := Codec.loadXorBytes cfg.loadEmptyResets st.tx (parseKv j)
